@@ -8,7 +8,11 @@ def split_frontmatter(text: str) -> tuple[str, str]:
     rest of the document. If no frontmatter is found, returns an empty string
     and the original text.
     """
-    lines = text.splitlines()
+    # Only "\n" (and "\r\n") end a line here. `str.splitlines()` would also split on
+    # other characters (form feed, vertical tab, U+2028, ...) and so alter the frontmatter.
+    lines = text.replace("\r\n", "\n").split("\n")
+    if lines and lines[-1] == "":
+        lines.pop()
 
     # Skip empty lines at the beginning
     start_idx = 0
